@@ -97,8 +97,8 @@ def _day(prog, entry: Dict[str, Tuple[object, frozenset]], config: Dict[str, obj
         # first day of season k: the step starts on the planting date of the current season
         axioms = [(f"@{CK}.season_counter", "#0", L("=>")), ("planting_date", "CurrentDate", L("<=")),
                   ("harvest_date", "CurrentDate", L("=>"))]
-        # A-7: on the first day of a season development time is below Emergence
-        callee_axioms = {"canopy_cover": [("tCCadj", "Crop.Emergence", L("<"))]}
+        # (no axiom on the development time: since fix F28 the reset restores cc0_adj itself)
+        callee_axioms = {}
     sinks: list = []
     it = Interp(prog, fi, domains=DOMAINS, param_vals={st_formal: Obj(ST), ck_formal: Obj(CK), ps_formal: Obj(PS)},
                 init_heap=heap, interprocedural=True, part_key="vars", split_vars=["growing_season"],
@@ -251,7 +251,6 @@ def rule_a(chk, prog):
                           loc=f"{fi.path}:{line}")
         # restored fields must not leak either (their taints are run constants only) - informational
     chk.assume("A-1")
-    chk.assume("A-7")
 
 
 def rule_b(chk, prog):
